@@ -85,7 +85,7 @@ class Builder:
         if len(paths) != 2:
             return info
         # the OpenMP translation: its own object, instrumented by -fsanitize=thread
-        src = h20.write(os.path.join(d, "openmp_tu.cpp"), h20.kept_tu(p, "openmp", paths["openmp"]))
+        src = h20.write(os.path.join(d, "openmp_tu.cpp"), h20.renames(p, "openmp")[1] + '#include "%s"\n' % paths["openmp"])
         oobj = os.path.join(d, "openmp.o")
         try:
             run_cmd(ompx.kernel_cmd(src, oobj), "compile of the OpenMP translation (-fopenmp -fsanitize=thread)")
